@@ -33,6 +33,14 @@ def gen(rng, tier, no, wide=False):
                 if rng.random() < 0.6:
                     ev.insert(rng.randint(1, len(ev)), {"ph": "X", "cat": "cpu_op", "name": "aten::boundary", "pid": 1000 + r,
                                                          "tid": 300 + r, "ts": t, "dur": rng.choice([0, g])})
+        # a device-side synchronisation record that carries no correlation id (stream -1, device side by its name): it
+        # is launched by nothing, so trimming drops it; it must never be multiplied by the correlation join
+        if rng.random() < 0.2:
+            xs = [e for e in ev if e.get("ph") == "X" and e.get("cat") == "cpu_op"]
+            if xs:
+                h = rng.choice(xs)
+                ev.insert(rng.randint(1, len(ev)), {"ph": "X", "cat": "cuda_sync", "name": rng.choice(["Context Sync", "Event Sync"]), "pid": r, "tid": 0,
+                                                     "ts": h["ts"], "dur": h["dur"], "args": {"device": r}})
     case["params"] = {"include_last": rng.random() < 0.5}
     return case
 
@@ -144,8 +152,10 @@ def oracle(case, obs) -> List[str]:
         last_start = max(x[1] for x in st)
         last_end = max(x[1] + x[2] for x in st)
         kh = {x[0] for x in host if (x[1] <= last_end if il else x[1] < last_start)}
-        kcorr = {by_idx[i][6] for i in kh}
+        kcorr = {by_idx[i][6] for i in kh} - {-1}       # "launched by": a correlation id, never the absence of one
         kd = {x[0] for x in rows if _dev(x) and x[6] in kcorr}
+        if len(c["kept"][r]) != len(kept):
+            out.append(f"rank {r}: the loaded frame holds an event more than once ({len(c['kept'][r])} rows for {len(kept)} events)")
         if kept != kh | kd:
             out.append(f"rank {r}: kept ids differ from the rule: unexpected {sorted(kept - (kh | kd))[:6]} missing {sorted((kh | kd) - kept)[:6]} (include_last={il}, last step [{last_start - m0},{last_end - m0}])")
         if c["n_rows"][r] != len(kept):
